@@ -110,7 +110,7 @@ func cmdCheck(args []string) {
 		usage()
 	}
 	id := args[0]
-	opts := checkOpts{tier: "quick", secs: 10, workers: 16}
+	opts := checkOpts{tier: "quick", secs: 30, workers: 10}
 	if t := os.Getenv("VERIF_TIER"); t != "" {
 		opts.tier = t
 	}
@@ -124,7 +124,7 @@ func cmdCheck(args []string) {
 		}
 	}
 	if opts.tier == "thorough" {
-		opts.secs = 60
+		opts.secs = 120
 	}
 	if s := os.Getenv("VERIF_SEED"); s != "" {
 		opts.seed, _ = strconv.ParseInt(s, 10, 64)
@@ -498,7 +498,7 @@ func cmdBaseline(args []string) {
 		}
 	}
 	sort.Strings(ids)
-	opts := checkOpts{tier: "quick", secs: 10, workers: 16}
+	opts := checkOpts{tier: "quick", secs: 30, workers: 10}
 	for _, id := range ids {
 		run := runProperty(p, propDefs[id], opts)
 		m := map[string]string{}
